@@ -155,12 +155,10 @@ pub struct Cycle {
 impl Cycle {
     /// Creates a new [Cycle] adaptor
     pub fn new(iter: KIterator) -> Self {
+        // The cache is only a performance hint, so avoid reserving huge amounts of memory up front
+        // for long (or infinite) input iterators, which can panic with a capacity overflow.
         let (lower_bound, _) = iter.size_hint();
-        let size_hint = if lower_bound < usize::MAX {
-            lower_bound
-        } else {
-            0
-        };
+        let size_hint = lower_bound.min(1024);
 
         Self {
             iter,
